@@ -9,8 +9,16 @@ random radii/spacing arrays (zeros, sub-core radii, phase-specific vs global par
 model chain generated-formula -> clip -> superpose -> min rule; (C) precStrength over several phases
 and totalStrength; (D) rssterm/Lsterm/updateCoupledModel history sequences; (E) constrainedGrowth,
 Normalize, grainGrowth/getdXdt on random grain distributions and drag levels; (F) one REAL coupled
-Al-Zr run (StrengthModel + GrainGrowthModel attached by addCouplingModel, two solve calls).
-Direct oracle: the C18 predicates on the real functions and histories."""
+Al-Zr run (StrengthModel + GrainGrowthModel attached by addCouplingModel, two solve calls) with FURTHER
+coupling models of the same classes (second/third StrengthModel and GrainGrowthModel with other
+parameters, attached before/after the base models or between the solve calls); (G) histories of
+attach / clear / host-step operations on hosts with the REAL coupling list (GenericModel.addCouplingModel,
+clearCouplingModels, updateCoupledModels): a GenericModel subclass carrying precipitate data with real
+StrengthModels / GrainGrowthModels / recorders (two or three of one class), and a real GrainGrowthModel
+as the host with real solve calls, vs the state machine KawinV.Coupling (list, host index, log of update calls).
+Direct oracle: the C18 predicates on the real functions and histories; for EVERY model that was attached:
+one update per host step since its attachment (strength rows = steps + 1, grain clock = host time elapsed),
+addCouplingModel leaves the models already attached in place (identity, order)."""
 import math, os, sys
 import numpy as np
 import vlib
@@ -18,7 +26,7 @@ from vlib import Result, enc_list, f2b, Toks, close
 
 PROP = 'C18'
 META = {
-    'level_text': 'Lean 4 theorems about (i) definitions REGENERATED on every run from Strength.py by a concolic tracer (mixed, edge and screw contribution formulas, Orowan, line tension) and (ii) hand models of the array logic of Strength.py and GrainGrowth.py: every clipped weak/strong/Orowan contribution is >= 0, the weak/strong sums, the combined precipitate strength, the multi-phase precipitate strength and the total strength are >= 0 (reals, rpow); precipitate strength = Taylor factor x min(weak, strong, Orowan) and 0 when a branch is non-finite (no precipitates); superposition (sum a_i^n)^(1/n) >= every a_j and non-decreasing in every a_i; the traced mixed-dislocation formulas reduce to the traced edge/screw formulas at 90/0 degrees (exact identities for modulus, APB-weak, SFE, interfacial; for the coherency and APB-strong formulas, whose published coefficients are rounded, the reduced form plus bounds on the coefficient ratio); Zener drag: sign in {0, sign g}, |cG| <= |g|, frozen when the drag >= max|g|; third moment = 1 after Normalize, mean size invariant under Normalize; transport with zero nucleation does not increase the number of grains (C07 budget + one-sided ends); one strength row per host step plus the initial row over any number of solve calls; grain-growth clock = host clock after every host step. The generated definitions and the models are tied to the code by differential correspondence on every run, the predicates are evaluated on the real functions and on a real coupled Al-Zr run.',
+    'level_text': 'Lean 4 theorems about (i) definitions REGENERATED on every run from Strength.py by a concolic tracer (mixed, edge and screw contribution formulas, Orowan, line tension) and (ii) hand models of the array logic of Strength.py and GrainGrowth.py: every clipped weak/strong/Orowan contribution is >= 0, the weak/strong sums, the combined precipitate strength, the multi-phase precipitate strength and the total strength are >= 0 (reals, rpow); precipitate strength = Taylor factor x min(weak, strong, Orowan) and 0 when a branch is non-finite (no precipitates); superposition (sum a_i^n)^(1/n) >= every a_j and non-decreasing in every a_i; the traced mixed-dislocation formulas reduce to the traced edge/screw formulas at 90/0 degrees (exact identities for modulus, APB-weak, SFE, interfacial; for the coherency and APB-strong formulas, whose published coefficients are rounded, the reduced form plus bounds on the coefficient ratio); Zener drag: sign in {0, sign g}, |cG| <= |g|, frozen when the drag >= max|g|; third moment = 1 after Normalize, mean size invariant under Normalize; transport with zero nucleation does not increase the number of grains (C07 budget + one-sided ends); one strength row per host step plus the initial row over any number of solve calls; grain-growth clock = host clock after every host step; the coupling list of a host as a state machine (attach = append, clear, host step = one updateCoupledModel call per list entry in list order): for every history of attach / clear / step operations every attached model is updated exactly once per host step since its attachment, at consecutive host indices (attached_updated_every_step), attaching keeps every attached model in place and does not change the update calls any other model receives (attach_mem, attach_prefix, attach_does_not_alter_others), cleared models are not updated, hence a StrengthModel attached at any time has (host steps since its attachment) + 1 rows (attached_history_length); witness: de-duplication by class detaches the first of two models of one class (dedup_detaches_first_of_same_class). The generated definitions and the models are tied to the code by differential correspondence on every run, the predicates are evaluated on the real functions and on a real coupled Al-Zr run.',
     'level_note': 'Monitored only (oracle, not proved): monotone mean grain size without pinning (needs third-moment conservation of the upwind scheme, only approximate); finiteness of IEEE results (the model treats np.isfinite as an arbitrary predicate; non-finite -> 0 is proved, that the real formulas are non-finite exactly for empty distributions is checked numerically); coherency-weak/strong and APB-strong edge/screw agreement is up to the rounding of the published coefficients (1e-5 / 1.5e-3 relative). The inner GrainGrowthModel.solve reaching exactly its end time is C05; here it is checked on the real run. Known finding gg-mean-size-dip-volume-drift: the mean grain size can dip by 1e-5..2e-4 relative in a step where grains leave through the last face of the grid (volume before Normalize < 1); the proved bound Rm_new^3 >= V_new * Rm_old^3 is checked by the oracle on every standalone step. Trusted: Lean kernel + Mathlib, axioms propext/Classical.choice/Quot.sound; the tracer tools/py2lean/sym.py (validated numerically on every run); hand models equal the NumPy code as far as this run compared them; exact-field arithmetic instead of IEEE doubles.',
     'technique': 'Lean 4 proof over generated definitions (py2lean) + hand models + differential correspondence + real coupled run',
     'design_ref': 'DESIGN.md section 6, C18',
@@ -34,10 +42,12 @@ ASSUMPTIONS = [
     'material parameters are positive and finite, Poisson ratio < 1, superposition exponents > 0, Taylor factor >= 0, base and solid-solution strength >= 0',
     'radii and spacings are non-negative (zeros and radii below the dislocation core radius included)',
     'grain size distributions are non-negative with at least one populated class (Normalize divides by the third moment); drag z >= 0',
+    'a coupling model OBJECT is attached at most once at a time (addCouplingModel is a plain append: the same object attached twice is updated twice per host step - modelled with multiplicity in updatesOf_run, not generated by the oracle); a model attached after n host steps starts its own history there: rows = steps since attachment + 1, clock = host time elapsed since attachment',
     'theorems are over exact ordered-field / real arithmetic; IEEE doubles compared with rtol 1e-9',
 ]
 TRUSTED = ['tools/py2lean/sym.py concolic tracer and emitter (every generated def is re-validated numerically on each run)',
-           'np.power / np.amin / boolean-mask assignment / np.append semantics as modelled in KawinV.Strength and KawinV.Grain (compared on every run)']
+           'np.power / np.amin / boolean-mask assignment / np.append semantics as modelled in KawinV.Strength and KawinV.Grain (compared on every run)',
+           'part (G): the stand-in host is a subclass of the real GenericModel (its coupling-list methods are the code under test) that carries only the attributes the coupling models read (phases, elements, PBM[p].PSD/PSDsize, pData.n/time/composition/Ravg/volFrac, setTimeInfo); the per-model call log comes from wrappers set on the model instances']
 
 GEN_FILE = os.path.join(vlib.LEAN, 'KawinV', 'Gen', 'C18Strength.lean')
 SRC = 'kawin/precipitation/coupling/Strength.py'
@@ -1211,7 +1221,8 @@ def corr(ctx, oracle_only=False, scale=1, skip_run=False):
     res.rule = ('(A) generated defs at random parameter vectors (22 numbers; radii incl. sub-core, spacing incl. below core) for both line-tension models; '
                 '(B) per phase: random parameters x global/phase-specific enable flags x (r, Ls) arrays with empty / sub-core / core / typical / large / zero-spacing entries; '
                 '(C) 1-3 phases precStrength + totalStrength; (D) history op sequences (1-3 solve calls x 0-6 host steps, empty and populated PSDs); '
-                '(E) grain growth: random size grids x distribution kind x drag level, standalone runs; (F) one real coupled Al-Zr run. '
+                '(E) grain growth: random size grids x distribution kind x drag level, standalone runs; (F) one real coupled Al-Zr run with 4-5 coupling models (2-3 of one class, attached before / after the base models or between the solve calls); '
+                '(G) coupling-list histories: 2-6 models (2-3 of one class: StrengthModel / GrainGrowthModel / recorder) x 1-3 solve calls x attach slots (before the first solve, between solves) x clear + re-attach, on a stand-in host with the real list and on a real GrainGrowthModel host; non-trivial = at least one host step with two models of one class attached. '
                 'non-trivial = at least one enabled contribution and one entry with precipitates (B,C) / populated distribution (D,E); distinct = full case tuple. '
                 'Every case runs in its own guard: an exception raised by the code under test is a violation raises:<call site>:<type> with the case, the run goes on')
     res.monitored = list(MONITORED)
